@@ -334,6 +334,29 @@ pub fn spaces(tier: Tier) -> Vec<Space<'static>> {
             }
         }
     }));
+    // Int64(0) -- a zero stored in the signed class, which is what the text `-0` parses to; B64 leaves it
+    // out because it shares its encoding with UInt64(0) -- against every B64 number, in both operand orders
+    sp.push(Space::new("order: Int64(0) (the parse of -0) against every B64 number, both operand orders", n as u64, move |j, acc| {
+        let a = RNum::I(0);
+        let b = b64[j as usize];
+        let (na, nb) = (Number::Int64(0), to_num(&b));
+        acc.eval();
+        acc.nontrivial += 1;
+        let exp = num_cmp(&a, &b);
+        match guard(|| (na.cmp(&nb), nb.cmp(&na), na == nb, nb == na, na.partial_cmp(&nb), <&Number as PartialOrd<Number>>::partial_cmp(&&na, &nb))) {
+            Ok((c, r, e1, e2, pc, ps)) if c == exp && r == exp.reverse() && e1 == (exp == Ordering::Equal) && e2 == e1 && pc == Some(exp) && ps == Some(exp) => {}
+            other => acc.vio("order:signed-zero-differs-from-exact-value", || json!({"a": "Int64(0)", "b": format!("{:?}", b), "expected": format!("{:?}", exp), "observed (a.cmp(b), b.cmp(a), a==b, b==a, partial, &a partial)": format!("{:?}", other.map_err(|p| panic_class(&p)))})),
+        }
+        // and as the parse of the text: -0 against the number's own text
+        if let RNum::F(bits) = b { if !f64::from_bits(bits).is_finite() { return; } }
+        let mut tb = String::new();
+        refmodel::text::print_num(&b, &mut tb);
+        acc.eval();
+        match guard(|| jsonb::compare(b"-0", tb.as_bytes())) {
+            Ok(Ok(c)) if c == exp => {}
+            other => acc.vio("order:signed-zero-differs-from-exact-value", || json!({"a": "text -0", "b": tb, "expected": format!("{:?}", exp), "observed": format!("{:?}", other.map_err(|p| panic_class(&p)))})),
+        }
+    }));
     // the same relation through documents: jsonb::compare on the encoded numbers (bare and as the
     // only element of an array), and the number's way through the Value encoder and from_slice
     {
